@@ -12,7 +12,6 @@ import (
 	"strconv"
 	"strings"
 
-	"github.com/transparency-dev/witness/internal/feeder/bastion"
 	"github.com/transparency-dev/witness/internal/witness"
 )
 
@@ -223,7 +222,7 @@ func bodyMain(args []string) error {
 			}
 			for r := 0; r < *reps; r++ {
 				body, old, hashes, cp, desc := renderTokens(rng, v.Toks)
-				gotOld, gotProof, gotCP, perr := bastion.VerifParseBody(bytes.NewReader(body))
+				gotOld, gotProof, gotCP, perr := shimParseBody(bytes.NewReader(body))
 				ev := bodyEvent{E: "body", Run: "body", K: k, Toks: v.Toks, Accepted: perr == nil, Conc: desc}
 				if perr == nil {
 					ev.OldOK = gotOld == old
@@ -294,7 +293,7 @@ func bodyMain(args []string) error {
 				want = append(want, h)
 			}
 			cp, _ := base64.StdEncoding.DecodeString(v.CP)
-			gotOld, gotProof, gotCP, perr := bastion.VerifParseBody(bytes.NewReader(body))
+			gotOld, gotProof, gotCP, perr := shimParseBody(bytes.NewReader(body))
 			events = append(events, bodyEvent{E: "writer", Run: "writer", K: j, Toks: []string{}, Accepted: perr == nil,
 				OldOK: gotOld == v.Old, ProofOK: perr == nil && sameHashes(gotProof, want), CPOK: bytes.Equal(gotCP, cp),
 				Conc: fmt.Sprintf("%d hashes, cp %dB", len(want), len(cp))})
